@@ -471,6 +471,7 @@ def run_config(contract, cfg, facets="VCSTRN", prime=None, tier="quick", max_pat
             c.entry_measure = contract.measure(c, *args, **kwargs) if hasattr(contract, "measure") else None
             c.entry = c.snapshot()
             start = len(g.trace)
+            c.call_start = start          # events before this index belong to the setup / an earlier call (history)
             opsnap = _snapshot_operands(c, args, kwargs)
             stsnap = _snapshot_state(w, opsnap)
             w.target = contract.target
